@@ -252,6 +252,40 @@ def check(ctx):
         ctx.ob("C20.R2", of, "iteration_best = which_best_in_recent_history(last iteration, "
                              "validation loss history)", ok_ib, detail=short(ib or ()),
                stmt="ibest " + pretty(ib or ())[:160])
+        # optim_flat temporarily rewrites stopper.patience: a default stopper must be a
+        # fresh object of this call (a shared module-level default would carry a patience
+        # left behind by an interrupted earlier call into later calls)
+        st_t = ro.env.vars.get("stopper")
+        dflts = sorted({x for x in subterms(st_t or ()) if x[0] == "phi"
+                        and x[1] == ("cmp", "is", n("stopper"), c(None))})
+        ok_fresh = (len(dflts) == 1 and is_call(dflts[0][2], "liesel.goose.optim.Stopper")
+                    and dflts[0][3] == n("stopper"))
+        ctx.ob("C20.R2", of, "without a user stopper a NEW Stopper is constructed in the call "
+                             "(its patience is rewritten during the run)", ok_fresh,
+               detail=short(st_t or (), 120), stmt="default stopper " + pretty(st_t or ())[:100])
+        # the caller's Stopper is never left with another patience: every write to
+        # `.patience` either goes to an object created in this call or writes back the value
+        # read from that same object
+        S0 = dflts[0] if dflts else None
+        bad_w = []
+        for loc, v, nd, cond in ro.stores:
+            if loc[0] == "a" and loc[2] == "patience":
+                tgt = loc[1]
+
+                def may_be_users(t):
+                    if t == n("stopper"):
+                        return True
+                    if t[0] == "phi":
+                        return may_be_users(t[2]) or may_be_users(t[3])
+                    return False
+                if may_be_users(tgt) and v != ("a", S0, "patience"):
+                    bad_w.append((nd, v))
+        ctx.ob("C20.R2", of, "the caller's Stopper keeps its patience on every path, also when "
+                             "the call fails half-way (the temporary patience = max_iter goes "
+                             "to a copy)", not bad_w,
+               detail="; ".join(f"line {nd.lineno}: patience <- {short(v, 60)}" for nd, v in bad_w),
+               node=bad_w[0][0] if bad_w else None,
+               stmt="caller's stopper rewritten: " + "; ".join(pretty(v)[:60] for _, v in bad_w))
         # the user's patience is restored before ibest is computed
         pat_stores = [(val_, node) for loc, val_, node, _ in ro.stores
                       if loc[0] == "a" and loc[2] == "patience"]
@@ -261,8 +295,8 @@ def check(ctx):
         ok_pat = False
         if pat_stores and ib_nodes:
             last_val, last_node = pat_stores[-1]
-            ok_pat = (last_node.lineno < ib_nodes[0].lineno and last_val[0] == "a"
-                      and last_val[2] == "patience")
+            ok_pat = (last_node.lineno < ib_nodes[0].lineno and S0 is not None
+                      and last_val == ("a", S0, "patience"))
         ctx.ob("C20.R2", of, "the user's patience is restored before the best iteration is "
                              "located", ok_pat, stmt="patience restore")
         # ---- what is recorded: row 0 = the start, row i = the state after iteration i
